@@ -106,6 +106,7 @@ fn generate(corpus: &Corpus, tier: Tier, run: u64, rng: &mut Rng) -> Option<Case
         g.shuffles = true;
         g.swarm(rng);
         g.fault_prone = true;
+        g.ext_without_fallback = rng.chance(1, 3);
         g.message_sites = rng.chance(2, 3);
         crate::inkgen::generate(rng, &g)?
     } else if which < 8 {
